@@ -118,8 +118,10 @@ Print Assumptions C07_parser_output_convertible.
    context class), every output option, every repeat limit):
    expand returns a value, or one of the two parse errors with 0 <= position <= length of the abbreviation (or no
    position); never Internal, never OutOfFuel.
+   markup.href (URL / e-mail detection on the wrap text, model/MarkupHref.v) is part of the model and hence of this
+   theorem for every value of the option; props/Href.v: it adds no failure (Href_same_outcome).
    Not in the model (hence not in this theorem; implementation oracle only): lorem text generation,
-   markup.href rewriting, user callbacks other than the identity; CPython's recursion limit (known finding). *)
+   user callbacks other than the identity; CPython's recursion limit (known finding). *)
 Theorem C07_expand_safe : forall x s,
   wf_cfg (xc_m x) -> safe_outcome (length s) (expand_markup_str x s).
 Proof. exact expand_safe. Qed.
